@@ -587,7 +587,7 @@ decode_len_dist:
 
 	;; Check if a valid look back distances was decoded
 	cmp	copy_start, [rsp + start_out_mem_offset]
-	jl	invalid_look_back_distance
+	jl	invalid_look_back_distance_fast
 	MOVDQU	xmm1, [copy_start]
 
 	;; Set tmp2 to be the minimum of COPY_SIZE and repeat_length
@@ -742,6 +742,10 @@ out_buffer_overflow_lit:
 	jg	decode_len_dist_2
 	jmp	end_state
 
+invalid_look_back_distance_fast:
+	;; The main loop moved next_out past the copy before the distance was
+	;; checked; nothing was copied, so do not report those bytes as output
+	sub	next_out, repeat_length
 invalid_look_back_distance:
 	mov	rax, INVALID_LOOKBACK
 	jmp	end
@@ -751,6 +755,8 @@ invalid_dist_symbol_ %+ next_sym:
 	jl	end_of_input
 	jmp	invalid_symbol
 invalid_dist_symbol_ %+ next_sym3:
+	;; (main loop: next_out was already moved past the copy, see above)
+	sub	next_out, repeat_length
 	cmp	read_in_length, next_sym3
 	jl	end_of_input
 invalid_symbol:
